@@ -135,7 +135,13 @@ class TreeConverter(ast.NodeVisitor):
     return ["Name", node.id]
 
   def visit_Constant(self, node):
-    return ["Const", node.value]
+    # Only constants that JSON can carry are supported (see the node table above): bytes, complex
+    # numbers, Ellipsis and float literals that overflow to infinity are not.
+    value = node.value
+    if not (value is None or isinstance(value, (bool, int, str)) or
+            (isinstance(value, float) and value - value == 0)):
+      return self.generic_visit(node)
+    return ["Const", value]
 
   visit_NameConstant = visit_Constant
 
@@ -155,6 +161,9 @@ class TreeConverter(ast.NodeVisitor):
     return self.visit_List(node)    # We don't distinguish tuples and lists
 
   def visit_Call(self, node):
+    if any(v.arg is None for v in node.keywords):
+      # f(**kwargs) has no representation in the tree.
+      return self.generic_visit(node)
     args = [self.visit(v) for v in node.args]
     if node.keywords:
       # E.g. foo(a, b=2, c=3) becomes [Call, foo, a, [keywords, [b, 2], [c, 3]]]
